@@ -15,6 +15,7 @@ import vlib
 import fuzzgen as fg
 
 ALL_LEVELS = [f'{a}{f}{p}' for a in range(4) for f in range(3) for p in range(3)]
+TLS_DIR = __import__('os').path.join(vlib.REPO, 'certs', 'ca_chain')
 
 
 def observable(line):
@@ -175,6 +176,7 @@ def server_task_family(ctx):
     else:
         groups = []
         n = 24 if ctx.quick() else 300
+        n = n + n // 3
         fixed = [('2', ['C', 'C', 'B0', 'U', 'R1:5', 'R0:6']), ('2', ['C', 'B0', 'C', 'R1:3', 'U', 'R0:4']), ('3', ['C', 'C', 'C', 'B1', 'X0', 'U', 'R2:9', 'R1:2'])]
         while len(groups) < n:
             if fixed:
@@ -202,12 +204,19 @@ def server_task_family(ctx):
                     free = [k for k in alive]
                     if free:
                         ops.append(f'R{r.choice(free)}:{r.randrange(1, 60000)}')
+            if not fixed and len(groups) % 4 == 3:
+                # the TLS server: T = a peer whose TLS handshake is pending (it never starts it), C = a rodbus TLS
+                # client channel; a level change must neither drop a pending handshake nor disturb the sessions
+                m = 'tls:' + TLS_DIR + ':' + r.choice(['2', '3'])
+                ops = r.choice([['T', 'C', 'R1:5'], ['C', 'T', 'T', 'R0:3'], ['T', 'T', 'C', 'R2:4', 'X2'], ['C', 'T', 'R0:9', 'T'], ['T', 'C', 'C', 'R1:2', 'R2:3']])
             vs = []
             p = r.randrange(0, len(ops) + 1)
-            vs.append((ops[:p] + ['D'] + ops[p:], 'single'))
+            if m.startswith('tls:'):
+                p = r.randrange(1, len(ops) + 1)
+            vs.append((ops[:p] + ['D'] + ops[p:], 'tls-single' if m.startswith('tls:') else 'single'))
             b = [i for i, o in enumerate(ops) if o.startswith('B')]
             p = (b[0] + 1) if b else r.randrange(1, len(ops) + 1)
-            vs.append((ops[:p] + ['D'] * r.choice([9, 10, 12]) + ops[p:], 'burst-while-busy' if b else 'burst'))
+            vs.append((ops[:p] + ['D'] * r.choice([9, 10, 12]) + ops[p:], 'tls-burst' if m.startswith('tls:') else 'burst-while-busy' if b else 'burst'))
             groups.append((f'{m} ' + ' '.join(ops), [(f'{m} ' + ' '.join(v), k) for v, k in vs]))
     lines = []
     for b, vs in groups:
